@@ -16,14 +16,14 @@ def run(ver):
     binp = core.cargo_build("vh")
     for frames, maxlen, maxintr, maxreads in RCONF[ver.tier]:
         tag = f"mc_c14r_{frames}_{maxlen}_{maxintr}_{maxreads}"
-        res = core.run_tlc("MC_C14R", "MC_C14R.cfg", wd, tag=tag,
+        res = core.run_tlc("MC_C14R", "MC_C14R.cfg", wd, tag=tag, coverage=True,
                            consts={"Frames": "<- " + frames, "MaxLen": str(maxlen), "MaxIntr": str(maxintr), "MaxReads": str(maxreads)})
         core.tlc_failure(res, tag)
         ver.add_mc(res, f"MC_C14R {frames} MaxLen={maxlen} MaxIntr={maxintr} MaxReads={maxreads}: every cut point x every deliver-k / interrupted / eof; 7 invariants")
         core.replay_cases(ver, binp, res["out_path"], wd, tag)
     for vals, maxlen, maxintr, maxfaults in WCONF[ver.tier]:
         tag = f"mc_c14w_{vals}_{maxlen}_{maxintr}_{maxfaults}"
-        res = core.run_tlc("MC_C14W", "MC_C14W.cfg", wd, tag=tag,
+        res = core.run_tlc("MC_C14W", "MC_C14W.cfg", wd, tag=tag, coverage=True,
                            consts={"WVals": "<- " + vals, "WMaxLen": str(maxlen), "MaxIntr": str(maxintr), "MaxFaults": str(maxfaults)})
         core.tlc_failure(res, tag)
         ver.add_mc(res, f"MC_C14W {vals} WMaxLen={maxlen} MaxIntr={maxintr} MaxFaults={maxfaults}: every accept-k / interrupted / zero / fail; 3 invariants")
